@@ -198,7 +198,13 @@ theorem solve_rel1 (hbeq : ((0 : α) == 0) = true) (st : Settings α) {S S' : So
     rw [runSolve_data eL]; exact hsol
   refine RelM.bind (finish_rel st hF hsol') ?_
   rintro ⟨S1, sol1⟩ ⟨S1', sol1'⟩ ⟨g1, g2, g3, g4, g5, g6, g7⟩
-  exact ⟨g1, hF.traj, g2, g3, g4, g5, g6, g7⟩
+  -- the norm caches `Info.update` filled: the same `get_normq` / `get_normb` on the same data
+  show RelM SolveObs (fillNorms S1.data >>= fun data => _) (fillNorms S1'.data >>= fun data => _)
+  have g2' : S1'.data = S1.data := g2.symm
+  rw [g2']
+  cases hfn : fillNorms S1.data with
+  | error e => exact rfl
+  | ok d => exact ⟨g1, hF.traj, rfl, g3, g4, g5, g6, g7⟩
 
 /-- **the second of two `solve()` calls on one solver object** gives the observable result of the
 first, provided (iii) `solve_initial_point` succeeds — no hypothesis on `KKTSolver::update` is left -/
@@ -213,7 +219,9 @@ theorem solve_twice_obs1 (hbeq : ((0 : α) == 0) = true) (st : Settings α) {S :
   obtain ⟨s1, s2, s3⟩ := solve_solution_shape h1
   have hsol : SolShape ((presolveMap S.st.data).map (fun m => m.keep.size)) S.solution r1.S.solution :=
     SolShape.of_sizes s1.symm s3.symm s2.symm hsz
-  have hrel := solve_rel1 hbeq st (Stale.of_sameShape hsh hw hq (solve_kktOk h1 hc hk).2) hsol (Or.inl hinit)
+  have hrel := solve_rel1 hbeq st (S' := r1.S.withData S.st.data)
+    (Stale.of_sameShape hsh hw hq (solve_kktOk h1 hc hk).2) hsol (Or.inl hinit)
+  rw [← solve_putBack h1 st] at hrel
   exact hrel.ok_left h1
 
 end
